@@ -125,6 +125,11 @@ def run(ctx: common.Run):
             for sh, e in ((0.5, 0.3), (-0.25, 1.0), (0.5, 2.0)):
                 pre.append((cirq.ControlledGate(G(dimension=d, global_shift=sh, exponent=e)), None))
                 pre.append((cirq.ControlledGate(G(dimension=d, global_shift=sh, exponent=e), control_qid_shape=(3,), control_values=[2]), None))
+    # gates without a matrix of their own whose decomposition borrows ancilla qubits, on targets in every order
+    for k in (2, 3):
+        for perm in itertools.permutations(cirq.LineQubit.range(k)):
+            if rng.random() < (0.6 if ctx.tier == 'quick' else 1.0):
+                pre.append((gen.ancilla_gate(cirq, rng, k), list(perm)))
     # control-value patterns: every arrangement of 0 / 1 / don't-care (0,1) controls (the decomposition handles each control by its
     # position; a don't-care control is dropped, a 0 control is conjugated by X), and qutrit controls with value sets
     cvs = [0, 1, (0, 1)]
@@ -174,7 +179,7 @@ def run(ctx: common.Run):
         op2, wname = wrap(cirq, rng, op) if not qudit else (op, 'none')
         if tuple(op2.qubits) != tuple(op.qubits):
             op2, wname = op, 'none'  # a CircuitOperation lists its qubits in sorted order: a different (equally valid) matrix layout
-        u = cirq.unitary(op)
+        u = gen.op_unitary(cirq, op)
         ctx.count('wrapper', wname)
         try:
             cirq.unitary(op2)
